@@ -120,6 +120,43 @@ pub enum OpKind {
     /// `Signals::receive()`: a signalfd_siginfo out-parameter inside the
     /// operation (a real signalfd descriptor; its reads are simulated).
     ReceiveSignal,
+    /// `AsyncFd::read(buf)` where `buf` owns a second AsyncFd: a resource
+    /// whose Drop submits to the queue (a close) whenever and wherever a10
+    /// drops the operation's resources.
+    ReadOwning { cap: u16 },
+}
+
+/// A read buffer that owns a descriptor.
+pub struct OwningBuf {
+    pub data: Vec<u8>,
+    pub fd: Option<a10::AsyncFd>,
+}
+
+unsafe impl a10::io::BufMut for OwningBuf {
+    unsafe fn parts_mut(&mut self) -> (*mut u8, u32) {
+        unsafe { a10::io::BufMut::parts_mut(&mut self.data) }
+    }
+    unsafe fn set_init(&mut self, n: usize) {
+        unsafe { a10::io::BufMut::set_init(&mut self.data, n) }
+    }
+    fn spare_capacity(&self) -> u32 {
+        a10::io::BufMut::spare_capacity(&self.data)
+    }
+    fn has_spare_capacity(&self) -> bool {
+        a10::io::BufMut::has_spare_capacity(&self.data)
+    }
+}
+
+thread_local! {
+    /// Descriptors handed back by finished ReadOwning operations; dropped
+    /// together with the history's descriptor.
+    pub static OWNED_STASH: std::cell::RefCell<Vec<a10::AsyncFd>> = const { std::cell::RefCell::new(Vec::new()) };
+}
+
+pub fn drop_owned_stash() {
+    let v: Vec<a10::AsyncFd> = OWNED_STASH.with(|s| std::mem::take(&mut *s.borrow_mut()));
+    let _s = track::scope(track::TAG_A10);
+    drop(v);
 }
 
 /// The path operation `id` names: `len` extra characters after a fixed stem.
@@ -200,6 +237,7 @@ impl OpKind {
             OpKind::SocketName { .. } => "socket_name",
             OpKind::SetSockOpt => "set_socket_option",
             OpKind::ReceiveSignal => "receive_signal",
+            OpKind::ReadOwning { .. } => "read[owning]",
         }
     }
     pub fn has_memory(&self) -> bool {
@@ -303,6 +341,8 @@ pub struct OpState {
     /// The operation goes through a direct descriptor: `fd_raw` is its index
     /// and every submission must carry IOSQE_FIXED_FILE.
     pub fixed: bool,
+    /// ReadOwning: the number of the descriptor the buffer owns.
+    pub owned_fd: Option<i32>,
 }
 
 impl OpState {
@@ -311,7 +351,7 @@ impl OpState {
         let afd = world.fd(fd);
         let fd_raw = world.direct_index.unwrap_or_else(|| sim_fd_number(afd));
         let uses_fd = !matches!(kind, OpKind::CreateDir { .. } | OpKind::Remove { .. } | OpKind::Rename { .. } | OpKind::Wait { .. } | OpKind::ReceiveSignal);
-        let mut st = OpState { id, kind: kind.clone(), fd: Some(fd), fd_raw, source: Vec::new(), before: Vec::new(), buf_addr: 0, expect: None, fixed: world.direct_index.is_some() && uses_fd };
+        let mut st = OpState { id, kind: kind.clone(), fd: Some(fd), fd_raw, source: Vec::new(), before: Vec::new(), buf_addr: 0, expect: None, fixed: world.direct_index.is_some() && uses_fd, owned_fd: None };
         let fut: Box<dyn DynFut> = match kind {
             OpKind::Truncate => {
                 let _s = track::scope(track::TAG_A10);
@@ -358,6 +398,28 @@ impl OpState {
                 let _s = track::scope(track::TAG_A10);
                 boxed(afd.read(buf), |r| match r {
                     Ok(v) => Out::Bytes(v),
+                    Err(e) => Out::from_err(&e),
+                })
+            }
+            OpKind::ReadOwning { cap } => {
+                let raw = crate::sim::sim().issue_fd();
+                let sq = world.sq();
+                let buf = {
+                    let _s = track::scope(track::TAG_RESOURCE);
+                    OwningBuf { data: Vec::with_capacity((*cap as usize).max(1)), fd: Some(unsafe { a10::AsyncFd::from_raw_fd(raw, sq) }) }
+                };
+                st.owned_fd = Some(raw);
+                st.buf_addr = buf.data.as_ptr().addr();
+                let _s = track::scope(track::TAG_A10);
+                boxed(afd.read(buf), |r| match r {
+                    Ok(mut b) => {
+                        // Kept until the history's descriptor goes (no close
+                        // is submitted from inside a poll).
+                        if let Some(fd) = b.fd.take() {
+                            OWNED_STASH.with(|s| s.borrow_mut().push(fd));
+                        }
+                        Out::Bytes(std::mem::take(&mut b.data))
+                    }
                     Err(e) => Out::from_err(&e),
                 })
             }
@@ -616,6 +678,14 @@ impl OpState {
         (st, fut)
     }
 
+    /// ReadOwning is a plain read into a vector as far as the kernel goes.
+    fn norm_kind(&self) -> OpKind {
+        match &self.kind {
+            OpKind::ReadOwning { cap } => OpKind::ReadVec { cap: *cap, prefill: 0 },
+            k => k.clone(),
+        }
+    }
+
     /// Independent expectation of the submission (everything except
     /// user_data, which the caller checks for plausibility and uniqueness).
     pub fn check_sqe(&self, sqe: &Sqe) -> Result<(), String> {
@@ -632,7 +702,7 @@ impl OpState {
         let mut want = Sqe::zeroed();
         want.user_data = sqe.user_data;
         want.fd = self.fd_raw;
-        match &self.kind {
+        match &self.norm_kind() {
             OpKind::Truncate => {
                 want.opcode = abi::OP_FTRUNCATE;
                 want.off = tag_for(self.id);
@@ -724,6 +794,7 @@ impl OpState {
                     want.addr = sqe.addr;
                 }
             }
+            OpKind::ReadOwning { .. } => unreachable!("normalised"),
             OpKind::ReadVec { cap, prefill } => {
                 let cap = (*cap as usize).max(1);
                 let prefill = (*prefill as usize).min(cap - 1);
@@ -754,7 +825,7 @@ impl OpState {
         }
         let Outcome::Ok { frac } = outcome else { unreachable!() };
         let scale = |max: usize| -> usize { ((*frac as usize) * (max + 1)) >> 16 };
-        match &self.kind {
+        match &self.norm_kind() {
             OpKind::Truncate => {
                 self.expect = Some(Expect::Unit);
                 Ok((0, 0))
@@ -997,6 +1068,7 @@ impl OpState {
                 self.expect = Some(Expect::Unit);
                 Ok((0, 0))
             }
+            OpKind::ReadOwning { .. } => unreachable!("normalised"),
             OpKind::ReadVec { .. } | OpKind::Recv { .. } | OpKind::ReadAt { .. } => {
                 let Some(region) = req.regions.iter().find(|r| r.what == "buffer") else {
                     self.expect = Some(Expect::Bytes(self.before.clone()));
@@ -1018,7 +1090,7 @@ impl OpState {
     /// An interrupted attempt scribbles over the destination (the bytes must
     /// never show up in the result).
     pub fn kernel_interrupt(&mut self, req: &Req) {
-        if matches!(self.kind, OpKind::ReadVec { .. } | OpKind::Recv { .. } | OpKind::ReadAt { .. }) {
+        if matches!(self.kind, OpKind::ReadVec { .. } | OpKind::Recv { .. } | OpKind::ReadAt { .. } | OpKind::ReadOwning { .. }) {
             if let Some(region) = req.regions.iter().find(|r| r.what == "buffer") {
                 let junk = vec![0xEEu8; region.len.min(64)];
                 let _ = regions::write_region(region, 0, &junk);
